@@ -277,13 +277,12 @@ func (g *pgen) genWalk(root *rnode) walkInfo {
 			if f == nil {
 				fs := g.usableFields(cur.st)
 				if len(fs) == 0 || rapid.IntRange(0, 5).Draw(g.rt, "absent_field") == 0 {
-					pool := append([]int{}, idPool...)
-					if !g.k[fNegID] {
-						pool = append(pool, negIDPool...)
-					} else {
-						excl(fNegID)
-					}
+					pool := append(append([]int{}, idPool...), negIDPool...)
 					q = qkey{K: "f", I: rapid.SampledFrom(pool).Draw(g.rt, "fid")}
+					if q.I < 0 && g.k[fNegID] {
+						excl(fNegID)
+						q.I = rapid.SampledFrom(idPool).Draw(g.rt, "fid2")
+					}
 					f = fieldByID(cur.st, q.I)
 					if f != nil && f.id < 0 && g.k[fNegID] {
 						f = nil
@@ -530,6 +529,35 @@ func genMaskCase(rt *rapid.T) (maskCase, pathStats) {
 	}
 	c.Exact = c.Mode == "valid" && !(c.Black && st.trailStar)
 
+	if wantInvalid && c.Mode == "valid" && rapid.IntRange(0, 3).Draw(rt, "conflict_after_star") == 0 {
+		// a specific key after a '*' (or after a path that ends) at the same position,
+		// in this order, is the documented conflict error (fieldmask/api_test.go TestErrors)
+		want := rapid.SampledFrom([]int{kStruct, kList, kIntMap, kStrMap}).Draw(rt, "conflict_at")
+		var cands [][]pstep
+		for _, p := range g.reach(want) {
+			if len(p) > 0 {
+				cands = append(cands, p)
+			}
+		}
+		if len(cands) > 0 {
+			prefix := rapid.SampledFrom(cands).Draw(rt, "conflict_prefix")
+			cur := g.shapeAfter(prefix)
+			if spec, ok := g.step(cur, false, false); ok {
+				a := append([]pstep{}, prefix...)
+				if want != kStruct && rapid.Bool().Draw(rt, "explicit_star") {
+					a = append(a, pstep{kind: spec.kind, star: true})
+				}
+				b := append(append([]pstep{}, prefix...), spec)
+				c.Paths = []string{renderPath(a), renderPath(b)}
+				c.Mode = "invalid:conflict_specific_after_star"
+				c.Exact = false
+				st = pathStats{}
+				st.add(sc, g.root, a)
+				st.add(sc, g.root, b)
+				return c, st
+			}
+		}
+	}
 	if wantInvalid && c.Mode == "valid" {
 		if bad, class := g.genInvalid(); bad != "" {
 			pos := rapid.IntRange(0, len(c.Paths)).Draw(rt, "bad_pos")
@@ -748,6 +776,11 @@ func (g *pgen) genInvalid() (string, string) {
 	for _, a := range alts {
 		if !has(classes, a.class) {
 			classes = append(classes, a.class)
+		}
+	}
+	for _, c := range append([]string{}, classes...) {
+		if strings.HasPrefix(c, "key_") || strings.HasPrefix(c, "unknown_") {
+			classes = append(classes, c, c, c) // the semantic classes get more weight than the spellings of "malformed"
 		}
 	}
 	for try := 0; try < 4; try++ {
